@@ -77,7 +77,7 @@ namespace RecInt
         rmint(const rmint<K, MGI>& c) : Value(c.Value) { to_mg(*this); }
         rmint(const rmint<K, MGA>& c) : Value(c.Value) {}
         template <typename T, __RECINT_IS_UNSIGNED(T, int) = 0> rmint(const T b) : Value(b) { to_mg(*this); }
-        template <typename T, __RECINT_IS_SIGNED(T, int) = 0>   rmint(const T b) : Value((b < 0)? -b : b)
+        template <typename T, __RECINT_IS_SIGNED(T, int) = 0>   rmint(const T b) : Value(rm_magnitude(b))
         { mod_n(Value, p); if (b < 0) sub(Value, p, Value); to_mg(*this); }
 
         rmint<K, MGA>& random();
